@@ -53,58 +53,64 @@ theorem parse_append (a b : List Str) :
 /-- **A line without a tab is informational text**: type `i`, the stripped line as name. -/
 theorem info_iff_no_tab (line : Str) (h : line.contains 9 = false) :
     gmLine fb ea dm base pop line = some (infoEntry (strip line)) := by
-  unfold gmLine; rw [h]; rfl
+  unfold gmLine; simp only [h, Bool.false_and, Bool.false_eq_true, if_false]
 
-/-- a line with a tab is a link line built from its tab-separated, stripped fields -/
-theorem link_iff_tab (line : Str) (h : line.contains 9 = true) :
+/-- so is a line whose first field is empty (it has no type character) -/
+theorem info_if_no_type (line : Str) (h : (((splitOn 9 line).map strip).headD []).isEmpty = true) :
+    gmLine fb ea dm base pop line = some (infoEntry (strip line)) := by
+  unfold gmLine; simp only [h, Bool.not_true, Bool.and_false, Bool.false_eq_true, if_false]
+
+/-- a line with a tab and a type character is a link line built from its tab-separated, stripped fields -/
+theorem link_iff_tab (line : Str) (h : line.contains 9 = true) (h0 : (((splitOn 9 line).map strip).headD []).isEmpty = false) :
     gmLine fb ea dm base pop line =
       (gmLinkRaw base (((splitOn 9 line).map strip).headD []) ((((splitOn 9 line).map strip)[1]?).getD [])
         ((splitOn 9 line).map strip)[2]? ((splitOn 9 line).map strip)[3]?).map (gmPopulate fb ea dm pop) := by
-  unfold gmLine; rw [h]; rfl
+  unfold gmLine; simp only [h, h0, Bool.not_false, Bool.and_self, if_true]
 
 theorem wellformed_fields_total (a0 a1raw : Str) (hostF portF : Option Str)
-    (h : WellFormedFields a0 a1raw portF = true) : (gmLinkRaw base a0 a1raw hostF portF).isSome = true := by
+    (h : WellFormedFields a0 portF = true) : (gmLinkRaw base a0 a1raw hostF portF).isSome = true := by
   unfold WellFormedFields at h
   simp only [Bool.and_eq_true, Bool.not_eq_true'] at h
-  obtain ⟨⟨h0, h1⟩, h3⟩ := h
+  obtain ⟨h0, h3⟩ := h
   obtain ⟨port, hport⟩ := Option.isSome_iff_exists.mp h3
   cases a0 with
   | nil => simp at h0
-  | cons t nm => simp [gmLinkRaw, h1, hport]
+  | cons t nm => simp [gmLinkRaw, hport]
 
-/-- on well-formed lines `prepare` does not raise -/
+/-- on well-formed lines (a port field, if present, is a number) `prepare` does not raise — whatever
+    else the line lacks: a description, a selector, a type character -/
 theorem wellformed_total (line : Str) (h : WellFormedLine line = true) :
     (gmLine fb ea dm base pop line).isSome = true := by
   unfold WellFormedLine at h
   by_cases ht : line.contains 9 = true
-  · rw [link_iff_tab _ _ _ _ _ _ ht]
-    simp only [ht, if_true] at h
-    simp only [Option.isSome_map]
-    exact wellformed_fields_total _ _ _ _ _ h
+  · by_cases h0 : (((splitOn 9 line).map strip).headD []).isEmpty = true
+    · rw [info_if_no_type _ _ _ _ _ _ h0]; rfl
+    · have h0' : (((splitOn 9 line).map strip).headD []).isEmpty = false := by simpa using h0
+      rw [link_iff_tab _ _ _ _ _ _ ht h0']
+      simp only [ht, h0', Bool.not_false, Bool.and_self, if_true] at h
+      simp only [Option.isSome_map]
+      exact wellformed_fields_total _ _ _ _ _ (by unfold WellFormedFields; rw [h0', h]; rfl)
   · have hf : line.contains 9 = false := by simpa using ht
     rw [info_iff_no_tab _ _ _ _ _ _ hf]; rfl
 
 /-- everything `gmLinkRaw` returns, spelled out -/
 theorem linkRaw_some (a0 a1raw : Str) (hostF portF : Option Str) (e : Entry)
     (h : gmLinkRaw base a0 a1raw hostF portF = some e) :
-    ∃ t port, a0.head? = some t ∧ gmPort portF = some port ∧ (gmSelField a0 a1raw).isEmpty = false ∧
+    ∃ t port, a0.head? = some t ∧ gmPort portF = some port ∧
       e = { selector := gmSelector base (gmSelField a0 a1raw), type := some [t], name := some (a0.drop 1),
             host := gmHost hostF, port := port } := by
   unfold gmLinkRaw at h
   split at h
+  · rename_i t port h1 h2
+    exact ⟨t, port, h1, h2, by simpa using h.symm⟩
   · simp at h
-  · rename_i hne
-    split at h
-    · rename_i t port h1 h2
-      exact ⟨t, port, h1, h2, by simpa using hne, by simpa using h.symm⟩
-    · simp at h
 
 /-- **Type and description.** The first character of the first field is the item type, the
     rest of that field the description. -/
 theorem type_and_desc (t : Nat) (nm a1raw : Str) (hostF portF : Option Str) (e : Entry)
     (h : gmLinkRaw base (t :: nm) a1raw hostF portF = some e) :
     e.type = some [t] ∧ e.name = some nm := by
-  obtain ⟨t', port, h1, _, _, rfl⟩ := linkRaw_some base _ _ _ _ _ h
+  obtain ⟨t', port, h1, _, rfl⟩ := linkRaw_some base _ _ _ _ _ h
   simp at h1; subst h1; simp
 
 /-- **Selector default and relative resolution.** A missing selector defaults to the
@@ -113,7 +119,7 @@ theorem type_and_desc (t : Nat) (nm a1raw : Str) (hostF portF : Option Str) (e :
 theorem selector_rule (a0 a1raw : Str) (hostF portF : Option Str) (e : Entry)
     (h : gmLinkRaw base a0 a1raw hostF portF = some e) :
     e.selector = gmSelector base (if a1raw.isEmpty then a0.drop 1 else a1raw) := by
-  obtain ⟨_, _, _, _, _, rfl⟩ := linkRaw_some base _ _ _ _ _ h
+  obtain ⟨_, _, _, _, rfl⟩ := linkRaw_some base _ _ _ _ _ h
   rfl
 
 theorem relative_resolved (a1 : Str) (h1 : a1.head? ≠ some 47) (h2 : ¬ lit "URL:" <+: a1) :
@@ -140,7 +146,7 @@ theorem absolute_kept (a1 : Str) (h : a1.head? = some 47) : gmSelector base a1 =
 theorem host_port_rule (a0 a1raw : Str) (hostF portF : Option Str) (e : Entry)
     (h : gmLinkRaw base a0 a1raw hostF portF = some e) :
     e.host = gmHost hostF ∧ gmPort portF = some e.port := by
-  obtain ⟨_, port, _, hp, _, rfl⟩ := linkRaw_some base _ _ _ _ _ h
+  obtain ⟨_, port, _, hp, rfl⟩ := linkRaw_some base _ _ _ _ _ h
   exact ⟨rfl, hp⟩
 
 theorem no_host_field : gmHost none = none ∧ gmHost (some []) = none ∧ gmPort none = some none ∧
@@ -229,7 +235,10 @@ example : gmParse Generated.forbidden Generated.eaexts Generated.defaultMime (li
         linkEntry 49 (lit "Remote") (lit "/") (some (lit "example.org")) (some 70),
         infoEntry (lit "1just a name"),
         linkEntry 49 (lit "name only") (lit "/dir/name only") none none] := by decide +kernel
-example : WellFormedLine (lit "0x\t/y\th\t70\n") = true ∧ WellFormedLine (lit "\t/y\n") = false ∧
+example : WellFormedLine (lit "0x\t/y\th\t70\n") = true ∧ WellFormedLine (lit "\t/y\n") = true ∧ WellFormedLine (lit "1\t\n") = true ∧
     WellFormedLine (lit "0x\t/y\th\tseventy\n") = false := by decide +kernel
+/-- the two degenerate lines: no type character (shown as text), neither description nor selector (the directory itself) -/
+example : (gmParse [] [] (lit "text/plain") (lit "/dir") (fun _ => none) [lit "\t/y\n", lit "1\t\n"]).map (·.map fun e => (e.type, e.name, e.selector)) =
+    some [(some (lit "i"), some (lit "/y"), lit "fake"), (some (lit "1"), some [], lit "/dir/")] := by decide +kernel
 
 end Pyg.Props.C09
